@@ -24,10 +24,33 @@ CFG = dict(
 )
 
 MANIFEST = dict(
-    text="TBD",
-    note="TBD",
+    text="Theorems over a transcription of packets.ReadPacket (fixed header, magic, TLV loop with every tag, payload by format), Bytes(), the "
+         "constructors and every accessor, with Go panics as explicit values. For ALL byte strings (no length bound): if decoding accepts, no "
+         "accessor panics (Frames, ChannelInfo, Length, Timestamp, IsExternalTrigger, ReadValue at any index, MakePretendPacket with any nchan != 0, "
+         "and all of them again after ClearData) and the sizes agree (Length = declared header+payload length; consumed = header + stored payload "
+         "bytes <= declared; channel count = product of the shape >= 1; frames*channels <= stored values; in-range ReadValue returns the stored "
+         "sample, out-of-range 0; the filler packet repeats the first nchan values with equal sizes) -- C15_accessors_safe/_total; decoding never "
+         "consumes more than the input or than max(16, declared) -- C15_consumes_le_declared; for ALL packets built by any sequence of "
+         "NewPacket/SetTimestamp/ResetTimestamp/ClearData/successful NewData (16/32/64-bit, any dims, offsets, sequence numbers, counters, any "
+         "16-bit unit words) whose shape the wire format can carry, Bytes() succeeds and decoding it consumes it entirely and reproduces version, "
+         "source id, sequence number, channel offset, shape (non-positive sizes are wire padding and are dropped; exact when all sizes are positive), "
+         "payload samples and timestamp counter -- C15_roundtrip/_fields/_shape_exact. The same decidable oracles (accOK, rtOK) judge the real "
+         "code's output on every run; the model is compared field by field with the real ReadPacket/accessors/Bytes on generated datagrams.",
+    note="Trusted: Lean 4.33 kernel (axioms propext, Classical.choice, Quot.sound only; audited every run); the hand-written model is tied "
+         "to the Go code only by differential testing with seeded generators (not a proof): 'ReadPacket itself never panics' rests on the model "
+         "having no panic path in decode plus the child-process runs. Not claimed: the timestamp rate (float; its two 16-bit unit words are opaque), "
+         "Bytes() of a decoded (not constructed) packet, MakePretendPacket with nchan = 0 (divides by zero, caller error, modelled), "
+         "Frames() of a constructed packet whose dims product overflows. Round trip needs a carriable shape (a positive size, product of the "
+         "positive sizes <= 65535) -- NewData accepts others, ReadPacket rejects them. Seven defects of the unchanged tree were reproduced by "
+         "this check and repaired by fix: commits (see known_findings.jsonl); the model describes the repaired code.",
     technique="Lean 4 theorems over an executable model; model tied to the Go code by a differential correspondence run",
 )
 
 THEOREMS = [
+    ("DastardV.Props.C15", "DastardV.C15.C15_accessors_safe"),
+    ("DastardV.Props.C15", "DastardV.C15.C15_accessors_total"),
+    ("DastardV.Props.C15", "DastardV.C15.C15_consumes_le_declared"),
+    ("DastardV.Props.C15", "DastardV.C15.C15_roundtrip"),
+    ("DastardV.Props.C15", "DastardV.C15.C15_roundtrip_fields"),
+    ("DastardV.Props.C15", "DastardV.C15.C15_roundtrip_shape_exact"),
 ]
